@@ -308,6 +308,44 @@ def slave_contexts(run, r):
                  sample_class=('slave', zero))
 
 
+def defaulted_contexts(run, r):
+    """slave contexts constructed with only some tables (the others get the library's default block): every context owns its
+    cells - a write through one context never shows through another, and a reset of one leaves the other alone"""
+    from pymodbus.datastore import ModbusSequentialDataBlock
+    names = {'d': 'di', 'c': 'co', 'i': 'ir', 'h': 'hr'}
+    fx_of = {'d': 2, 'c': 1, 'i': 4, 'h': 3}
+    for i in range(run.scale(12, 400)):
+        zero = bool(i % 2)
+        ctxs, given = [], []
+        for k in range(2 + i % 2):
+            g = [t for t in 'dcih' if r.random() < 0.4]
+            kw = {names[t]: ModbusSequentialDataBlock(0, [False if t in 'dc' else 0] * 64) for t in g}
+            ctxs.append(ModbusSlaveContext(zero_mode=zero, **kw))
+            given.append(g)
+        case = {'kind': 'defaulted-contexts', 'zero_mode': zero, 'given': given}
+        run.count('defaulted_context_cases')
+        bad = None
+        for a in range(len(ctxs)):
+            for t in 'dcih':
+                addr = r.randrange(0, 60)
+                val = [True] if t in 'dc' else [0x1234 + a]
+                before = [list(c.getValues(fx_of[t], addr, 1)) for c in ctxs]
+                ctxs[a].setValues(fx_of[t], addr, val)
+                run.count('comparisons')
+                for b in range(len(ctxs)):
+                    now = list(ctxs[b].getValues(fx_of[t], addr, 1))
+                    want = val if b == a else before[b]
+                    if [bool(x) if t in 'dc' else x for x in now] != [bool(x) if t in 'dc' else x for x in want]:
+                        bad = 'write of %r to table %s address %d through context %d: context %d now reads %r (tables given: %r)' % (val, t, addr, a, b, now, given)
+                for tt in 'dcih':
+                    if tt != t and t not in given[a] and tt not in given[a] and not (t in 'dc') == (tt in 'dc'):
+                        pass
+        run.case(h64(repr(case) + str(i)), True, sample={'kind': 'defaulted contexts', 'zero_mode': zero, 'tables_given': given, 'verdict': 'held' if not bad else 'differs'},
+                 sample_class=('defaulted-contexts',))
+        if bad:
+            run.violation('context:defaulted-tables-shared', case, bad)
+
+
 # ---- server context
 class Token(object):
     def __init__(self, n):
@@ -441,6 +479,8 @@ def run(run):
     sweep_sparse(run)
     random_sequences(run, r)
     slave_contexts(run, r)
+    if run.shard in (None, 0):
+        defaulted_contexts(run, r)
     server_contexts(run, r)
     st = contracts.datastore_stats()
     run.observed['contract_evaluations'] = st['evaluations']
@@ -489,6 +529,8 @@ def replay(run, case):
     elif k == 'server':
         case['ops'] = [tuple(o) for o in case['ops']]
         print('held' if server_context_case(run, case) else 'differs')
+    elif k == 'defaulted-contexts':
+        defaulted_contexts(run, run.rng('main'))
     else:
         run.violation('contract', case, 'recorded contract firing; re-run the check')
     run.evaluations += 1
